@@ -170,6 +170,7 @@ HOSTILE = {
     "dash": ["-", "—", "--"],
     "longnum": ["9" * 21, "1" * 400, "0" * 50, "7" * 4400],   # 4400 > CPython's 4300-digit int() limit
     "star": ["*", "**", "\\"],
+    "invisible": ["\u00ad", "\u200b", "\u200d", "\ufeff", "\u2060"],   # soft hyphen, zero-width space/joiner, BOM, word joiner
     "surrogate": ["\ud800", "\udfff"],
     "astral": ["\U00010000", "\U0001f600"],
     "literal": ["eyecite", "supra", "Id.", "ibid.", "v.", "at", "citing", "see"],
@@ -223,6 +224,9 @@ def full_frag(rng):
         s += f", {num(rng)} {rep(rng)} {num(rng)}"
     if rng.random() < 0.6:
         s += " (" + rng.choice(["", "4th Cir. ", "Pa. ", "D. Mass. "]) + yearish(rng) + ")"
+    if rng.random() < 0.08:
+        # a parenthetical that starts with a year (read as a year parenthetical) and a further one after it
+        s += f" ({rng.randint(1990, 2020)} {rng.choice(['Supp.', 'ed.', 'amendment'])})" + rng.choice(["", " (holding x)", " (en banc) (per curiam)"])
     if rng.random() < 0.3:
         s += " (" + rng.choice(["holding x", "overruling Foo (Bar, J.)", "citing 1 U.S. 1",
                                  "quoting Roe, 410 U.S. at 120",
